@@ -395,6 +395,12 @@ static uint32_t srv_build(int srvidx, int fd, const sdns_query_t *q, const srv_p
     case SA_NXDOMAIN:
     case SA_NODATA:
       srv_soa_authority(o, serial, pl->soa_ttl, pl->soa_min);
+      if (sim_neg_ns_ttl) {
+        /* the zone's NS record beside the SOA, as authoritative servers send it: one more TTL the response carries */
+        size_t at = sdns_rr_begin(o, 2, "soa.test", 0, SDNS_T_NS, 1, sim_neg_ns_ttl);
+        sdns_put_name_text(o, "ns1.soa.test");
+        sdns_rr_end(o, at);
+      }
       break;
     case SA_SERVFAIL:
     case SA_REFUSED:
